@@ -18,6 +18,7 @@ import (
 	"bytes"
 	"compress/gzip"
 	"io"
+	"math"
 	"sync"
 
 	"connectrpc.com/connect"
@@ -86,6 +87,12 @@ func (p *compressionPool) compress(dst, src *bytes.Buffer) error {
 }
 
 func (p *compressionPool) decompress(dst, src *bytes.Buffer) error {
+	return p.decompressLimited(dst, src, math.MaxInt64-1)
+}
+
+// decompressLimited decompresses src into dst. If the decompressed data would be
+// larger than limit bytes, a "resource exhausted" error is returned instead.
+func (p *compressionPool) decompressLimited(dst, src *bytes.Buffer, limit int64) error {
 	if p == nil {
 		_, err := io.Copy(dst, src)
 		return err
@@ -96,8 +103,14 @@ func (p *compressionPool) decompress(dst, src *bytes.Buffer) error {
 	if err := decomp.Reset(src); err != nil {
 		return err
 	}
-	if _, err := dst.ReadFrom(decomp); err != nil {
+	// Read at most one byte more than the limit, so we can tell exceeding the
+	// limit apart from exactly reaching it, without inflating the whole payload.
+	n, err := dst.ReadFrom(io.LimitReader(decomp, limit+1))
+	if err != nil {
 		return err
+	}
+	if n > limit {
+		return bufferLimitError(limit)
 	}
 	return decomp.Close()
 }
